@@ -251,7 +251,7 @@ fn gen_c04(sink: &mut Sink, tier: &str, seed: u64) {
     let mut rng = StdRng::seed_from_u64(seed ^ 0xc04);
     let n = if tier == "thorough" { 30000 } else { 2500 };
     const ACCS: &[&str] = &["u8","u16","u32","u64","i8","i16","i32","i64","int","char","bool","null","undefined","simple","f16","f32","f64",
-                            "bytes","str","bytes_iter","str_iter","array","map","tag","datatype"];
+                            "bytes","str","bytes_iter","str_iter","array","map","tag","datatype","array_iter","map_iter"];
     for i in 0..n {
         let o = Opts { max_depth: 8, max_nodes: if i % 10 == 0 { 200 } else { 12 }, bad_utf8: i % 6 == 0, ..Opts::default() };
         let it = gen_item(&mut rng, &o);
